@@ -10,6 +10,7 @@ C04 — machine-checked witnesses on the remote-join LTS (Compio.Model.RemoteJoi
     handle is parked drops the waker without waking it.
 -/
 import Compio.Lemmas.RemoteJoin
+import Compio.Lemmas.ExecutorSteps
 
 namespace Compio.Cex.C04
 open Compio.RemoteJoin Compio.TaskWord Compio.Gen
@@ -147,5 +148,43 @@ example : ∃ s : RState, Trace true init
     (p := fun s => decide (s.epc = .wake ∧ eAccessesSlot s = true ∧ TaskState.isSettingWaker s.word = true ∧
       s.hpc = .finishFalse ∧ hAccessesSlot s = false)) (by decide)
   exact ⟨s, ht, of_decide_eq_true hp⟩
+
+/-! ## Observation F031 (found by the C03 builder) in terms of the C04 home-thread model
+
+The queue clause of the invariant (`Compio.Executor.Inv.c`: a cancelled task that is still queued is hot or in
+the sync queue) is an invariant of SEQUENTIAL cross-thread use only. With THREE threads it can be broken:
+a remote waker of task 1 is blocked on a full sync queue (reserved, spinning); meanwhile the JoinHandle of
+task 1 is dropped on another thread (`Remote::schedule` coalesces on SCHEDULED, then `set_cancelled`); the
+spinning pusher then sees `is_cancelled()`, releases its reservation and returns WITHOUT pushing. Task 1 is
+cancelled, SCHEDULED, cold, in no queue: no tick reaps it; its future is dropped only by `Executor::drop`.
+Not a violation of "dropped exactly once" (it is dropped at teardown), hence an observation. -/
+
+open Compio.Executor in
+/-- the bail-out branch of the push loop of `Remote::schedule` (`is_cancelled()` ⇒ `pending.fetch_sub(1)`,
+`finish_scheduling`, return) — the only branch the sequential model never takes -/
+def pusherBailsOut (e : Exec) (id : Nat) : Exec :=
+  finishSched { e with pending := e.pending - 1, inflight := none } id
+
+open Compio.Executor in
+/-- the state in which a remote waker of task 1 has reserved its slot and spins on the full queue -/
+def blockedPusherState : Exec :=
+  let e := run 1 [.spawn [.cloneWaker, .pending], .spawn [.cloneWaker, .pending], .tick 61, .rwake 0]
+  match e.get? 1 with
+  | some t =>
+    { e.setTask 1 { t with word := Compio.Gen.TaskState.startScheduling t.word } with
+        pending := e.pending + 1, inflight := some 1 }
+  | none => e
+
+open Compio.Executor in
+theorem stranded_cancelled_task_witness :
+    let e := pusherBailsOut (remoteHandleDrop blockedPusherState 1) 1
+    -- cancelled, SCHEDULED, still in the executor's map (cold), in neither the hot nor the sync queue
+    (e.get? 1).map (fun t => (t.word.notCancelled, t.word.scheduled, t.futDrops)) = some (false, true, 0) ∧
+    e.cold = [0, 1] ∧ e.hot = [] ∧ e.sync = [0] ∧ e.inflight = none ∧
+    -- ticks never reach it ...
+    ((tickN e 61 5).1.get? 1).map (fun t => t.futDrops) = some 0 ∧ inMap (tickN e 61 5).1 1 = true ∧
+    -- ... not even after further remote wake-ups (they coalesce on SCHEDULED); only the teardown drops the future
+    ((tickN (remoteSchedule e 1) 61 5).1.get? 1).map (fun t => t.futDrops) = some 0 ∧
+    ((execDrop (tickN e 61 5).1).get? 1).map (fun t => (t.futDrops, t.polls)) = some (1, 1) := by decide
 
 end Compio.Cex.C04
